@@ -32,24 +32,33 @@ Check constant_folding_preserves_partial_corollary : forall fixr fixo e, frag e 
     ev P k c (fst (pass_loop (fold_expression true fixr fixo) MAX_PASS_ITERATIONS e)) st = ev P n c e st.
 Print Assumptions constant_folding_preserves_partial_corollary.
 
-(* Statements.  The model's statement visitor (constant folding + the repaired dead-code elimination; strength reduction
-   off) applied to a straight-line statement list -- expression statements, throw, return, empty, break, continue,
-   function declarations, and the `if` / `while` / `for(;c;)` statements it eliminates because their condition folds to
-   a boolean literal and the removed part holds no hoisted declaration -- can replace the original list under every
-   continuation, in every program, context and state: same completion, trace and final state from some fuel on. *)
-Theorem straight_line_preserves_partial : forall o P0 l, repaired_cf_dce o -> Forall (sfrag o P0) l ->
+(* Statements.  [stmt_rel s s'] relates: expression statements / throw / return whose expressions are refined (in
+   particular constant-folded, by the theorem above); empty, break, continue, return, function declarations with
+   themselves; and the repaired dead-code eliminations -- `if (c) s`, `while (c) s`, `for (; c; u) s` --> `undefined;`
+   when c refines to `false`; `if (c) e;` and `if (c) s else e;` --> `e';` when c refines to `true` / `false`.
+   A statement list related member-wise can replace the original under every continuation, in every program, context
+   and state: same completion (value included), trace and final state from some fuel on.
+   Partial: compound statements whose bodies are optimised but kept (blocks, loops, try, if with a non-literal
+   condition), declarations with initialisers, the link "Model_C05.opt_stmts produces a stmt_rel-related list"
+   (holds by construction for these shapes; its proof by computation did not terminate in time), hoisting at
+   instantiation time and the function table are outside. *)
+Theorem straight_line_refines_partial : forall l l', Forall2 stmt_rel l l' ->
   forall K acc comp P n c st, o_run (mk P n) (KSeq l acc :: K) comp c st <> RFuel ->
-  exists m, forall k, m <= k ->
-    o_run (mk P k) (KSeq (fst (opt_stmts o P0 true l)) acc :: K) comp c st = o_run (mk P n) (KSeq l acc :: K) comp c st.
-Proof. exact straight_line_preserves_lem. Qed.
-Check straight_line_preserves_partial : forall o P0 l, repaired_cf_dce o -> Forall (sfrag o P0) l ->
+  exists m, forall k, m <= k -> o_run (mk P k) (KSeq l' acc :: K) comp c st = o_run (mk P n) (KSeq l acc :: K) comp c st.
+Proof. exact straight_line_refines_lem. Qed.
+Check straight_line_refines_partial : forall l l', Forall2 stmt_rel l l' ->
   forall K acc comp P n c st, o_run (mk P n) (KSeq l acc :: K) comp c st <> RFuel ->
-  exists m, forall k, m <= k ->
-    o_run (mk P k) (KSeq (fst (opt_stmts o P0 true l)) acc :: K) comp c st = o_run (mk P n) (KSeq l acc :: K) comp c st.
-Print Assumptions straight_line_preserves_partial.
+  exists m, forall k, m <= k -> o_run (mk P k) (KSeq l' acc :: K) comp c st = o_run (mk P n) (KSeq l acc :: K) comp c st.
+Print Assumptions straight_line_refines_partial.
 
-(* the hypotheses are satisfiable: print(1 + 2 * 3);  if (!1) { print(0); }  with all repairs on *)
-Example repaired_opts_ok : repaired_cf_dce (mk_opts 10 63).
-Proof. repeat split. Qed.
-Example frag2_example : frag2 (ECall (EId (S "print")) [Arg (EBinary BAdd (ENum 0) (EBinary BMul (ENum 1) (ENum 2)))] false).
+(* the repaired eliminations, one statement at a time, under related continuations *)
+Theorem dce_repaired_sound : forall s s', stmt_rel s s' -> forall K K', krefines K K' -> frefines (fexec s K) (fexec s' K').
+Proof. exact stmt_rel_exec. Qed.
+Check dce_repaired_sound : forall s s', stmt_rel s s' -> forall K K', krefines K K' -> frefines (fexec s K) (fexec s' K').
+Print Assumptions dce_repaired_sound.
+
+(* the hypotheses are satisfiable: print(1 + 2 * 3) is in the fragment; `while (false) s` relates to `undefined;` *)
+Example frag2_example : frag2 (ECall (EId nil) [Arg (EBinary BAdd (ENum 0) (EBinary BMul (ENum 1) (ENum 2)))] false).
 Proof. repeat constructor. Qed.
+Example stmt_rel_example : forall b, stmt_rel (SWhile (EBool false) b) undef_stmt.
+Proof. intros b. constructor. apply refines_refl. Qed.
